@@ -43,7 +43,7 @@ class ModelSeam:
         plan = _state['plan']
         if plan is not None and plan['kind'] == 'model_error' and plan['site'] == self.site:
             plan['count'] += 1
-            if plan['count'] == plan['nth'] and not plan['fired']:
+            if plan['count'] >= plan['nth'] and (plan.get('every') or not plan['fired']):
                 plan['fired'] = True
                 _raise(plan, 'model ' + self.site)
         return self.inner(*args, **kwargs)
@@ -88,7 +88,7 @@ def install_solver_seams():
                 plan = _state['plan']
                 if plan is not None and plan['kind'] == 'solver_fail' and plan['site'] == name:
                     plan['count'] += 1
-                    if plan['count'] == plan['nth'] and not plan['fired']:
+                    if plan['count'] >= plan['nth'] and (plan.get('every') or not plan['fired']):
                         plan['fired'] = True
                         _raise(plan, 'solver ' + name)
                 return inner(*args, **kwargs)
